@@ -607,6 +607,10 @@ THEOREMS.update({
     "C20_no_crash": "full",
     "C20_no_crash_sane": "full",
     "C20_no_crash_ex": "example",
+    "C20_conversion_total": "full",
+    "C20_no_index_error": "full",
+    "C20_terminates": "full",
+    "C20_terminates_ex": "example",
     "C20_unused_iff": "full",
     "C20_unused_set": "full",
     "C20_verdict_spec_partial": "partial",
